@@ -551,7 +551,7 @@ def run(run):
     run.bound = {"families": sizes, "max_leaves": 4 if th else 3}
     run.assumptions += ["independent reader mc/ref/pattern_ast.py on top of the third-party stix2-patterns ANTLR parse tree (its grammar is the definition of 'valid pattern')",
                         "structural equality ignores redundant parentheses and flattens chains of one associative operator (AND / OR / FOLLOWEDBY)"]
-    run.pmap(run_case, cases)
+    run.pmap(run_case, cases, order_independent=True)
     run.part.sample({"family": "atoms", "text": "[x:p NOT IN (1, 2)]", "expect": "printed text still says NOT IN"})
     run.part.sample({"family": "comparison-trees", "text": "[x:p = 1 AND (x:q = 2 OR x:r != 'a\\'b')]", "expect": "grouping preserved"})
     run.part.sample({"family": "qualifiers", "text": "([x:p = 1] AND [x:q = 2]) REPEATS 2 TIMES WITHIN 5 SECONDS"})
